@@ -37,7 +37,8 @@ def observe_program(P, givens, seed):
     d = flat = None
     build_error = None
     try:
-        d, flat = pr.build(P, rand_attrs(rng), is_async=is_async, mc=mc)
+        d, flat = pr.build(P, rand_attrs(rng), is_async=is_async, mc=mc, share={} if rng.random() < 0.5 else None,
+                           presub=lambda: rng.random() < 0.3)
         how = rng.random()
         if how < 0.3:
             # reconfigure priorities / sequentiality after the build: must not change the value
@@ -59,19 +60,30 @@ def observe_program(P, givens, seed):
                 os.remove(f.name)
     except BaseException as e:  # noqa: BLE001
         build_error = e
-    setup_paths = [[j] for j, s in enumerate(P["sites"], 1) if s.get("setup")]
-    pre = []
-    for given in givens:
+    setup_paths = pr.setup_paths(P)
+    # setup results the object holds before its first call (a nested DAG that had run its setup nodes on its own)
+    pre = [] if build_error is not None else sorted(list(path) for path, iid in flat if list(path) in setup_paths and iid in d.results)
+    # AsyncDAG: sometimes all the coroutines are created before the first one is awaited (conc = 3); awaited in turn
+    # they mean the same as calls made one after the other
+    turn = None
+    if is_async and build_error is None and rng.random() < 0.5:
+        turn = pr.run_real_turn(d, flat, [[pg.encode(x) for x in g] for g in givens], setup_paths)
+    for gi, given in enumerate(givens):
         row = {"given": [pg.encode(x) for x in given], "raised": False, "errclass": "", "val": pg.verr(), "exec": [],
-               "dup": False, "async": is_async, "built": True, "twice": False, "mc": mc, "conc": 0, "loop": 0, "pre": list(pre)}
+               "dup": False, "async": is_async, "built": True, "twice": False, "constret": False, "mc": mc, "conc": 0, "loop": 0, "pre": list(pre)}
         if build_error is not None:
             row["built"] = False
             row["twice"] = "already occupied" in str(build_error)
+            row["constret"] = isinstance(build_error, TypeError) and "unexpected keyword argument 'id_'" in str(build_error)
             row["errclass"] = type(build_error).__name__
             row["msg"] = str(build_error)[:160]
             rows.append(row)
             break
-        r = pr.run_real(d, flat, row["given"], is_async)
+        if turn is not None:
+            r, pre = turn[gi]
+            row["pre"], row["conc"] = list(pre), 3
+        else:
+            r = pr.run_real(d, flat, row["given"], is_async)
         row.update({k: r[k] for k in ("raised", "errclass", "val", "exec", "dup")})
         if r.get("unknown"):
             row["unknown"] = r["unknown"]
@@ -173,7 +185,7 @@ def run(tier, seed, log=common.say):
         used = sorted({r["p"] for r in b})
         remap = {p: k + 1 for k, p in enumerate(used)}
         path = os.path.join(common.CACHE, f"e2-{os.getpid()}-{i}.json")
-        rows = [{"p": remap[r["p"]], **{k: r[k] for k in ("given", "raised", "errclass", "val", "exec", "dup", "async", "built", "twice", "conc", "loop", "pre")}} for r in b]
+        rows = [{"p": remap[r["p"]], **{k: r[k] for k in ("given", "raised", "errclass", "val", "exec", "dup", "async", "built", "twice", "constret", "conc", "loop", "pre")}} for r in b]
         with open(path, "w") as f:
             json.dump({"progs": [stripped[p - 1] for p in used], "obs": rows}, f)
         try:
@@ -222,7 +234,9 @@ def run(tier, seed, log=common.say):
         m = bad_by_obs.get(id(r))
         tl_bad = bool(m) and any(c.endswith((".value", ".exec")) for c in m["c"])
         py_in = not ref.get("err") and not ref.get("argerr")
-        py_bad = py_in and (r["raised"] or r["val"] != ref["val"] or r["exec"] != ref["exec"])
+        kept = py_in and not r["raised"] and r["val"] != ref["val"] and r["val"] == ref["valK"]     # the recorded C10 finding, not ".value"
+        idx_none = py_in and r["raised"] and ref["errI"] and r["errclass"] in ("AttributeError", "TypeError")     # the other recorded C10 finding
+        py_bad = py_in and ((r["raised"] and not idx_none) or (not r["raised"] and ((r["val"] != ref["val"] and not kept) or r["exec"] != ref["exec"])))
         if tl_bad != py_bad:
             oracle_dis.append({"given": r["given"], "tlc": m["c"] if m else [], "ref": ref})
     viol_counts, viols, kept = {}, [], {}
@@ -303,7 +317,7 @@ def replay(payload, log=common.say):
     P = payload["prog"]
     given = [pg.decode(x) for x in payload["given"]]
     row = {"p": 1, "given": payload["given"], "raised": False, "errclass": "", "val": pg.verr(), "exec": [], "dup": False,
-           "async": payload.get("async", False), "built": True, "twice": False, "conc": 0, "loop": 0, "pre": []}
+           "async": payload.get("async", False), "built": True, "twice": False, "constret": False, "conc": 0, "loop": 0, "pre": []}
     try:
         d, flat = pr.build(P, lambda k: {}, is_async=row["async"], mc=2)
         r = pr.run_real(d, flat, payload["given"], row["async"])
@@ -311,6 +325,7 @@ def replay(payload, log=common.say):
     except BaseException as e:  # noqa: BLE001
         row["built"] = False
         row["twice"] = "already occupied" in str(e)
+        row["constret"] = isinstance(e, TypeError) and "unexpected keyword argument 'id_'" in str(e)
         log(f"build failed: {e!r}")
     path = os.path.join(common.CACHE, f"e2-replay-{os.getpid()}.json")
     os.makedirs(common.CACHE, exist_ok=True)
